@@ -586,9 +586,12 @@ func (b *RefinementBuilder) NewValue() (ret Value) {
 		}
 	}
 
+	// The value gets its own copy of the refinement: the builder stays usable
+	// after NewValue, and whatever it records later must not reach into a
+	// value that already exists.
 	return Value{
 		ty: b.orig.ty,
-		v:  &unknownType{refinement: b.wip},
+		v:  &unknownType{refinement: b.wip.copy()},
 	}
 }
 
